@@ -182,6 +182,13 @@ pub fn gen_case(rng: &mut Rng, fx: &Fixtures) -> Case {
         h.extend_from_slice(&doc);
         doc = h;
     }
+    // a UTF-8 byte order mark (or a torn one) in front of everything
+    if !entry.is_script() && rng.chance(1, 40) {
+        let bom: &[u8] = *rng.pick(&[&b"\xef\xbb\xbf"[..], b"\xef\xbb", b"\xef\xbb\xbf\xef\xbb\xbf"]);
+        let mut h = bom.to_vec();
+        h.extend_from_slice(&doc);
+        doc = h;
+    }
     // rarely: a very long junk header delivered in tiny reads (any per-read cost that the library
     // keeps instead of releasing shows up as allocation or stack growth)
     let mut long_header = false;
@@ -255,7 +262,7 @@ pub fn gen_case(rng: &mut Rng, fx: &Fixtures) -> Case {
         entry,
         original,
         events,
-        url_variant: rng.weighted(&[40, 30, 10, 10, 10]) as u8,
+        url_variant: rng.weighted(&[36, 26, 8, 8, 8, 10, 4]) as u8,
         workload_seed: rng.next_u64(),
         full_workload: rng.chance(1, 10),
         script_text,
@@ -316,6 +323,9 @@ pub struct Exec {
     pub api_calls: BTreeMap<&'static str, u64>,
     pub reserialised: u64,
     pub errors: BTreeMap<&'static str, u64>,
+    /// further distinct non-panic violations of the same run (so that a listed known finding
+    /// cannot hide a different one found in the same run)
+    pub more: Vec<(String, String)>,
 }
 
 enum Got {
@@ -352,7 +362,15 @@ fn run_entry(c: &Case, d: &[u8], rdr: &mut SimReader, cx: &mut work::Ctx) -> Got
                     // a damaged URL: the payload bytes taken as the URL text itself
                     format!("data:application/json;base64,{}", String::from_utf8_lossy(d))
                 }
-                _ => String::from_utf8_lossy(d).to_string(),
+                4 => String::from_utf8_lossy(d).to_string(),
+                5 => {
+                    // the preamble with one character replaced by a multi-byte one / in upper case
+                    let pre = "data:application/json;base64,";
+                    let k = (c.workload_seed % pre.len() as u64) as usize;
+                    let odd = ["é", "€", "👌", "Ａ"][(c.workload_seed / 64 % 4) as usize];
+                    format!("{}{}{}{}", &pre[..k], odd, &pre[k + 1..], zoo::base64(d))
+                }
+                _ => format!("DATA:application/JSON;BASE64,{}", zoo::base64(d)),
             };
             take!(sourcemap::decode_data_url(&url), Got::Decoded)
         }
@@ -494,7 +512,7 @@ pub fn execute(c: &Case) -> Exec {
     if let Verdict::Violated(s, _) = &verdict {
         h.str(s);
     }
-    Exec { verdict, event_hash: h.finish(), decoded, map_kind, peak_alloc: peak, delivered_len: d.len(), log, api_calls: cx.calls, reserialised: cx.reserialised, errors: cx.errors }
+    Exec { verdict, event_hash: h.finish(), decoded, map_kind, peak_alloc: peak, delivered_len: d.len(), log, api_calls: cx.calls, reserialised: cx.reserialised, errors: cx.errors, more: cx.soft_all.iter().map(|(s, d)| (s.clone(), format!("{d} (entry point {e}, doc {})", c.label))).collect() }
 }
 
 // ---------------------------------------------------------------- child
@@ -607,7 +625,14 @@ fn account(acc: &mut Acc, i: u64, c: &Case, ex: &Exec) {
     acc.digest = acc.digest.wrapping_add(d.finish());
     match &ex.verdict {
         Verdict::Held => {}
-        Verdict::Violated(sig, detail) => acc.violations.add(sig.clone(), i, detail.clone()),
+        Verdict::Violated(sig, detail) => {
+            acc.violations.add(sig.clone(), i, detail.clone());
+            for (s2, d2) in &ex.more {
+                if s2 != sig {
+                    acc.violations.add(s2.clone(), i, d2.clone());
+                }
+            }
+        }
         Verdict::Harness(m) => {
             if acc.harness.len() < 3 {
                 acc.harness.push(format!("run {i}: {m}"));
